@@ -688,6 +688,9 @@ func (e *Engine) global(g *ssa.Global) *value {
 		}
 	}
 	cell := zero(deref(g.Type()))
+	if g.Pkg != nil && g.Pkg.Pkg.Path() == "os" && g.Name() == "Args" {
+		cell = []value{"anko"}
+	}
 	e.globals[g] = &cell
 	return &cell
 }
@@ -703,6 +706,9 @@ func (e *Engine) ensureInit(pkg *ssa.Package) {
 		if g, ok := m.(*ssa.Global); ok {
 			if _, ok := e.globals[g]; !ok {
 				cell := zero(deref(g.Type()))
+				if pkg.Pkg.Path() == "os" && g.Name() == "Args" {
+					cell = []value{"anko"}
+				}
 				e.globals[g] = &cell
 			}
 		}
